@@ -7,8 +7,8 @@
    no capture, no function and no other rule) the hypothesis is discharged: C04_pure_* below hold of the evaluator model
    itself, for bodies of any shape, whenever every clause of the body evaluates (no error, no panic site, enough fuel). *)
 From Coq Require Import Permutation.
-From GV.Model Require Import SEval.
-From GV.Proofs Require Import StatusProps EvalLaws OrderProps FrameProps PureProps.
+From GV.Model Require Import SEval PEval.
+From GV.Proofs Require Import StatusProps EvalLaws OrderProps FrameProps PureProps MemoProps.
 
 Theorem C04_perm_lines : forall T (f : T -> M status) g cnf cnf' s,
   Permutation cnf cnf' -> transparent f g (List.concat cnf) ->
@@ -116,3 +116,48 @@ Theorem C04_pure_rule_perm_lines : forall re conv prog fuel cnf cnf' s,
   = status_of (cnf_body (rule_clause_body re prog (evalN re conv prog fuel)) cnf' s).
 Proof. exact pure_rule_perm_lines. Qed.
 Print Assumptions C04_pure_rule_perm_lines.
+
+(* ---- capture-free programs WITH memoised variables, cached rule statuses and parameterised calls ----
+   Valid s: the memos and the rule-status cache of s hold what the memo-free evaluator PEval computes for those names
+   (true of the initial state, kept by every evaluation: C15_caches_stay_valid). Two evaluations of a body from the same
+   valid state - the lines permuted, the alternatives of a line permuted, a line repeated - give the same status,
+   whatever was memoised or cached on the way. No hypothesis on the clause evaluator; any fuel; bodies of any shape. *)
+
+Theorem C04_memo_perm_lines : forall re conv prog, nc_prog prog = true ->
+  forall n cnf cnf' s st st' recs recs' s1 s2,
+  nc_cnf cnf = true -> Valid prog (evalP re conv prog) s -> Permutation cnf cnf' ->
+  cnf_body (ev_clause (evalN re conv prog n)) cnf s = Done (st, recs, s1) ->
+  cnf_body (ev_clause (evalN re conv prog n)) cnf' s = Done (st', recs', s2) -> st = st'.
+Proof. exact memo_perm_lines. Qed.
+Print Assumptions C04_memo_perm_lines.
+
+(* ... also from two different valid states with the same scope stack (different histories) *)
+Theorem C04_memo_perm_lines_any_history : forall re conv prog, nc_prog prog = true ->
+  forall n cnf cnf' s s0 st st' recs recs' s1 s2,
+  nc_cnf cnf = true -> Valid prog (evalP re conv prog) s -> Valid prog (evalP re conv prog) s0 -> erase s = erase s0 ->
+  Permutation cnf cnf' ->
+  cnf_body (ev_clause (evalN re conv prog n)) cnf s = Done (st, recs, s1) ->
+  cnf_body (ev_clause (evalN re conv prog n)) cnf' s0 = Done (st', recs', s2) -> st = st'.
+Proof. exact memo_perm_lines_any_cache. Qed.
+Print Assumptions C04_memo_perm_lines_any_history.
+
+Theorem C04_memo_perm_alternatives : forall re conv prog, nc_prog prog = true ->
+  forall n line line' rest s st st' recs recs' s1 s2,
+  nc_cnf (line :: rest) = true -> Valid prog (evalP re conv prog) s -> Permutation line line' ->
+  cnf_body (ev_clause (evalN re conv prog n)) (line :: rest) s = Done (st, recs, s1) ->
+  cnf_body (ev_clause (evalN re conv prog n)) (line' :: rest) s = Done (st', recs', s2) -> st = st'.
+Proof. exact memo_perm_alternatives. Qed.
+Print Assumptions C04_memo_perm_alternatives.
+
+Theorem C04_memo_dup_line : forall re conv prog, nc_prog prog = true ->
+  forall n line rest s st st' recs recs' s1 s2,
+  nc_cnf rest = true -> Valid prog (evalP re conv prog) s -> In line rest ->
+  cnf_body (ev_clause (evalN re conv prog n)) (line :: rest) s = Done (st, recs, s1) ->
+  cnf_body (ev_clause (evalN re conv prog n)) rest s = Done (st', recs', s2) -> st = st'.
+Proof. exact memo_dup_line. Qed.
+Print Assumptions C04_memo_dup_line.
+
+Theorem C04_initial_state_is_valid : forall re conv prog doc,
+  nc_prog prog = true -> Valid prog (evalP re conv prog) (init_state prog doc).
+Proof. exact init_state_valid. Qed.
+Print Assumptions C04_initial_state_is_valid.
